@@ -63,6 +63,14 @@ CHECKS = {
   "exhaustive enumeration of messages x announced keys x completing chains through the two validation paths, plus cache-history exploration shared between them",
   "For every message of the C05 space, three announced keys (matching, zero, other) and four completing chains (original, other, bottom, malformed), with the production stripper and with the justification left as sent: PartiallyValidate then FullyValidate accepts iff the key equals the chain's key and one-shot validation of the completed message accepts; strip then complete is the identity on valid messages; partial/full verdicts are independent of earlier validations on the same validator.",
   "as C05; completion uses the production justification-value inference through an injected accessor", "DESIGN §3 C13"),
+ "C11": (True, "walcrash", "fault_enumeration",
+  "exhaustive enumeration of operation histories on the real WAL with every torn-write image of the final append recovered and continued",
+  "All sequences over {append small/large, rotate, close, purge, reopen} up to depth 4 (thorough 5) plus long rotating histories run on the real WriteAheadLog; after every step All() must equal the reference list of acknowledged, unpurged entries (nothing else, per-file order), purge must be conservative and complete (directory listing); for every history ending in an append every byte offset of that append is materialised as a torn file, recovered, read, continued with further appends/purge and reopened again.",
+  "a crash tears only the final write; directory entries survive; wall-clock file names are opaque; tmpfs-backed directory", "DESIGN §3 C11"),
+ "C12": (True, "equivmc", "model_checking",
+  "explicit-state BFS over broadcast/rebroadcast/restart/crash histories on the production runner (filter -> WAL -> publish) with a synchronous wire observer",
+  "Breadth-first search over histories of conflicting broadcast requests (2 instances x 2 senders x slots x 2 signatures), rebroadcast requests, an old finality certificate (WAL purge), clean restarts, crash-restarts from the WAL image captured at the last publish and crashes in the middle of an append, on the real newRunner/BroadcastMessage/RequestRebroadcast/Stop over a real WAL directory and gossipsub topic. A pubsub default validator observes the wire synchronously inside Publish and snapshots the WAL: never two signatures per (instance, sender, round, step), never an older instance, every wire message already durable. The pure filter is additionally enumerated to depth 6/7 against a reference.",
+  "no storage errors, single node per identity; inbound topic validator removed; opaque signatures; one finalize event modelled through an accessor calling the production Purge", "DESIGN §3 C12"),
 }
 
 ALL = ["C%02d" % i for i in range(1, 21)]
